@@ -9,7 +9,7 @@ RULE = ('lookup/string: texts (ASCII and multi-byte UTF-8) of EVERY byte length 
         'strings), 0..63 (thread names) are enumerated in every run with pseudo-random content and encoded by the '
         'kernel-side chunk model; unrelated ordinary-domain records of the same thread and records of other threads '
         'are interleaved between the chunks. syscall: every path-taking decoder (66 names) x 0..7 lookups of '
-        'generated lengths, unrelated records anywhere in the window, some lookups exact repeats of the previous one (same vnode id, same text), three windows per run with 1030 / 4100 / 5000 other threads starting calls inside them. Oracle: exactly one lookup/string trace per '
+        'generated lengths, unrelated records anywhere in the window, some lookups exact repeats of the previous one (same vnode id, same text), timestamps increasing, sharing ticks, decreasing or pairwise inverted, three windows per run with 1030 / 4100 / 5000 other threads starting calls inside them. Oracle: exactly one lookup/string trace per '
         'text, none for continuation records, exact text / vnode id / string id, global_strings[id] == text; the '
         'quoted path parameters of the enclosing call equal the looked-up paths in lookup order at the reviewed '
         'positions. Non-trivial: a text of >= 3 records or a window with >= 2 lookups; distinct by (decoder, lengths).')
@@ -64,7 +64,14 @@ def weave(chunks, seed, tid, density):
 
 
 def feed(evs, same_tick=0):
-    # same_tick = g: consecutive groups of g records carry one timestamp (several records within one timebase tick)
+    # same_tick = g: consecutive groups of g records carry one timestamp (several records within one timebase tick);
+    # same_tick = -1 / -2: timestamps decrease along the stream / neighbours are pairwise inverted (the order of a stream is the
+    # order of its records; timestamps of a dump merged from several cpu buffers are not sorted)
+    if same_tick < 0:
+        n = len(evs)
+        real = EV.realize(evs, ts_list=[1000 + 7 * (n - i) if same_tick == -1 else 1000 + 7 * (i ^ 1 if i % 4 < 2 else i) for i in range(n)])
+        parser = EV.new_traces_parser()
+        return parser, list(parser.feed_generator(real))
     ts = [1000 + 7 * (i // same_tick) for i in range(len(evs))] if same_tick else None
     if ts:
         seen = set()
@@ -92,7 +99,7 @@ def prop_text(ctx, case):
         vnode = S.expand_words(seed, 9)[0]
         chunks = EV.lookup_events(tid, vnode, raw)
         evs = weave(chunks, seed, tid, density)
-        parser, traces = guard(feed, evs)
+        parser, traces = guard(feed, evs, [0, 0, -1, -2][seed % 4])
         mine = [t for t in traces if isinstance(t, VfsLookup) and t.ktraces[0].tid == tid]
         if len(mine) != 1:
             raise Violation('lookup-count', f'{len(mine)} lookup traces for one {n}-byte path ({len(chunks)} records): {[str(t) for t in mine]}')
@@ -104,7 +111,7 @@ def prop_text(ctx, case):
         dbg, sid = S.expand_words(seed, 9)[0], S.expand_words(seed, 9)[1] | 1
         chunks = EV.global_string_events(tid, dbg, sid, raw)
         evs = weave(chunks, seed, tid, density)
-        parser, traces = guard(feed, evs)
+        parser, traces = guard(feed, evs, [0, 0, -1, -2][seed % 4])
         mine = [t for t in traces if isinstance(t, TraceStringGlobal)]
         if len(mine) != 1:
             raise Violation('string-count', f'{len(mine)} string traces for one {n}-byte string ({len(chunks)} records)')
@@ -119,7 +126,7 @@ def prop_text(ctx, case):
         cls_ = TraceStringThreadname if kind == 'threadname' else TraceStringThreadnamePrev
         chunks = EV.threadname_events(tid, raw, code)
         evs = weave(chunks, seed, tid, density)
-        parser, traces = guard(feed, evs)
+        parser, traces = guard(feed, evs, [0, 0, -1, -2][seed % 4])
         mine = [t for t in traces if isinstance(t, cls_)]
         if len(mine) != 1:
             raise Violation('name-count', f'{len(mine)} name traces for one {n}-byte name ({len(chunks)} records)')
@@ -207,7 +214,7 @@ def run(ctx):
         for k in range(0, 8):
             lens = [lens_pool[(i + 3 * j + k) % len(lens_pool)] for j in range(k)]
             sc.append({'name': name, 'lens': lens, 'seed': base + i * 17 + k, 'density': (i + k) % 3, 'utf8': (i + k) % 4 == 0,
-                       'same_tick': [0, 0, 2, 3, 50][(i + 2 * k) % 5], 'repeat': [0, 0, 2, 6, 4][(i + k) % 5]})
+                       'same_tick': [0, 0, 2, 3, 50, -1, -2][(i + 2 * k) % 7], 'repeat': [0, 0, 2, 6, 4][(i + k) % 5]})
     for k, n in enumerate([1030, 4100, 5000] if ctx.quick else [300, 1030, 2050, 4100, 5000, 8200, 16500]):
         sc.append({'name': ['BSC_open', 'BSC_rename', 'BSC_stat64'][k % 3], 'lens': [100, 30][:1 + k % 2], 'seed': base + 900 + k, 'density': 0, 'utf8': False, 'same_tick': 0,
                    'repeat': 0, 'crowd': n})
@@ -215,7 +222,7 @@ def run(ctx):
     strat = st.fixed_dictionaries({'name': st.sampled_from(PATH_NAMES),
                                    'lens': st.lists(st.one_of(st.sampled_from(lens_pool), st.integers(0, 184)), max_size=7),
                                    'seed': S.u64, 'density': st.integers(0, 4), 'utf8': st.booleans(),
-                                   'same_tick': st.sampled_from([0, 0, 2, 3, 4, 50]), 'repeat': st.sampled_from([0, 0, 0, 2, 4, 6, 255])})
+                                   'same_tick': st.sampled_from([0, 0, 2, 3, 4, 50, -1, -2]), 'repeat': st.sampled_from([0, 0, 0, 2, 4, 6, 255])})
     ctx.run_given('syscall', strat, prop_syscall, ctx.n(2500, 20000))
     tstrat = st.fixed_dictionaries({'kind': st.sampled_from(['lookup', 'global', 'threadname', 'threadname_prev']),
                                     'n': st.integers(0, 63), 'seed': S.u64, 'density': st.integers(0, 4), 'utf8': st.booleans()})
